@@ -436,7 +436,7 @@ def cmpAllowAttrs : GToks :=
 /-- the emitted items: one impl, plus the hidden checker for `Eq` -/
 def CmpImpl.render (c : CmpImpl) : List GToks :=
   let trait_ := c.op.path
-  let wheres := c.wc.build (fun ty => U ty.toks +++ ":" ::: trait_)
+  let wheres := (c.wc.selfExpanded (DX.thisTy c.name c.generics)).build (fun ty => U ty.toks +++ ":" ::: trait_)
   let implG := U c.xgenerics.implToks
   let head (body : GToks) : GToks :=
     cmpAttrs +++ "impl" ::: implG +++ trait_ +++ "for" ::: c.thisTy +++ wheres +++ brace body
